@@ -122,7 +122,7 @@ def gen_case(rng, mixed):
             if api == "Produce":
                 f["kind"] = "move_leader"
                 f["tp"] = rng.randrange(0, 3)
-            elif api in ("FindCoordinator", "InitProducerId"):
+            elif api == "FindCoordinator" or (api == "InitProducerId" and rng.random() < 0.5):
                 f["kind"] = "error"
                 f["code"] = rng.choice(RETR_CODES[api])
             else:
@@ -262,6 +262,20 @@ def exact_families():
                                dict(abrt)], True, 1000 + k)
                     c_["expect"] = ["aborted", "committed"]
                     out.append(c_)
+    # family I: the transaction coordinator really moves while InitProducerId is on its way (the request is then
+    # answered NOT_COORDINATOR by the old node): start() must find the new coordinator and the transaction commit
+    for nodes in (2, 3):
+        for nth in (0, 1):
+            for to in (1, 2):
+                if to >= nodes:
+                    continue
+                k += 1
+                c_ = case(nodes, [{"sends": [0, 1], "delays": [0.0, 0.0], "modes": ["s", "s"], "await": True,
+                                   "offsets": 0, "end": "commit", "linger": 0}],
+                          [{"api": "InitProducerId", "nth": nth, "kind": "move_coord", "to": to}] +
+                          ([{"api": "InitProducerId", "nth": 0, "kind": "error", "code": 15}] if nth else []), False, 1000 + k)
+                c_["expect"] = ["committed"]
+                out.append(c_)
     # family B
     for code in NONRETRIABLE_PRODUCE[:2]:
         for d in (0.3, 0.8):
